@@ -192,12 +192,12 @@ func c18w(c *ctx) {
 					if c.thorough && rs.Name == "ResetOp" && (ci > 1 || fa == 2) {
 						continue // (budget: ResetOp on the two small configurations, destination healthy or failing at write 1)
 					}
-					seqs(wSuffixAlphabet, 2, func(sfx []wop) {
+					runSfx := func(sfx []wop, forced bool) {
 						fixed := opsKey(sfx) == "Wr1,Wr1" || opsKey(sfx) == "Fl,Wr1" || (rs.Name == "ResetOp" && (opsKey(sfx) == "Fl,Fl" || opsKey(sfx) == "Wr1,Fl" || opsKey(sfx) == "Wr0,Fl"))
-						if !c.thorough && !fixed && (rs.Name == "ResetOp" || (n+len(opsKey(sfx)))%5 != 0) {
+						if !forced && !c.thorough && !fixed && (rs.Name == "ResetOp" || (n+len(opsKey(sfx)))%5 != 0) {
 							return
 						}
-						if c.thorough && (opsKey(sfx) != "Wr1,Wr1") && (opsKey(sfx) != "Fl,Wr1") && (n+len(opsKey(sfx)))%2 != 0 {
+						if !forced && c.thorough && (opsKey(sfx) != "Wr1,Wr1") && (opsKey(sfx) != "Fl,Wr1") && (n+len(opsKey(sfx)))%2 != 0 {
 							return // (budget: every second suffix, rotating with the history)
 						}
 						ops := append(append([]wop(nil), h...), rs)
@@ -235,7 +235,18 @@ func c18w(c *ctx) {
 							}
 						}
 						t.add(sc, evs)
-					})
+					}
+					seqs(wSuffixAlphabet, 2, func(sfx []wop) { runSfx(sfx, false) })
+					// the extension attached again after the reset, from the caller's same list, when the
+					// history had attached it before (always run)
+					if rs.Name != "ResetOp" {
+						for _, o := range h {
+							if o.Name == "SetExt" {
+								runSfx([]wop{{"SetExt", "1", ""}, {"Write", "1", ""}}, true)
+								break
+							}
+						}
+					}
 				}
 			}
 		})
